@@ -101,8 +101,8 @@ Proof. wit. Qed.
 
 (* TYPE-ONLY.  l[*][s], l = list(tuple([string, number])) [["a", 1]], s = marked 0 / marked 1: the
    element TYPE of the resulting list (string / number) is visible although every element is marked.
-   Forces nothing by itself: splat_side (no list / set source, no unknown tuple) is a restriction of
-   the proof, which lacks the typing invariant "the elements of a list have the list's element type". *)
+   Forces: the second alternative of splat_side (each_ty_stable: the type of each(item) depends only on
+   the type of the item) for list / set sources and unknown tuples. *)
 Definition e_sp := ESplat (var n_l) (EIndex EAnon (var n_s)).
 Definition c_sp (k : Z) := ctx_of [(n_l, VList (TTuple [TStr; TNum]) [VTuple [VStr [97]; num 1]]); (n_s, mk1 (num k))].
 Lemma splat_refuted_elem_type : witness e_sp (c_sp 0) (c_sp 1).
